@@ -238,7 +238,8 @@ def check(ctx):
                 after = kinds['ROOK'] if promo else kinds[row['mv']]
                 val = {'castling(move)': row['C'], MOVER: kinds[row['mv']], VICTIM: kinds[row['vc']],
                        'from(move)': row['fr'], 'to(move)': row['to'], '_enpassant_square': sq['NO_SQUARE'],
-                       '_board[to(move)]': 0 if row['vc'] == 'NO_PIECE_KIND' else 4,
+                       '_board[to(move)]': 0 if row['vc'] == 'NO_PIECE_KIND' else kinds[row['vc']] + 6 * (1 - sd),
+                       '_board[from(move)]': kinds[row['mv']] + 6 * sd,
                        "get_piece_kind(_board'[to(move)])": after, "make_piece_kind(_board'[to(move)])": after,
                        "get_piece_kind(_board'[from(move)])": kinds['NO_PIECE_KIND'], "make_piece_kind(_board'[from(move)])": kinds['NO_PIECE_KIND'],
                        "_board'[from(move)]": 0, "_board'[to(move)]": 4,
@@ -250,10 +251,10 @@ def check(ctx):
                 for lname, cell in pre_locals.items():
                     if cell == '_board[from(move)]':
                         val['get_piece_kind(%s)' % lname] = val['make_piece_kind(%s)' % lname] = kinds[row['mv']]
-                        val[lname] = 2
+                        val[lname] = kinds[row['mv']] + 6 * sd
                     else:
                         val['get_piece_kind(%s)' % lname] = val['make_piece_kind(%s)' % lname] = kinds[row['vc']]
-                        val[lname] = 0 if row['vc'] == 'NO_PIECE_KIND' else 4
+                        val[lname] = 0 if row['vc'] == 'NO_PIECE_KIND' else kinds[row['vc']] + 6 * (1 - sd)
                 expect = 0
                 if row['mv'] == 'KING':
                     expect |= own
@@ -302,23 +303,45 @@ def check(ctx):
     seps = [n for n, cfid, nm in do.calls() if nm == POS + '::set_enpassant_square']
     ctx.ob('C02.R4.ep-once', 'do_move', _once_every_path(do, seps),
            'set_enpassant_square is called exactly once on every path of do_move', site=do.loc())
-    n_set = 0
-    for n in seps:
-        a = strip_casts(kids(n)[1])
-        if const_of(a) == sq['NO_SQUARE']:
-            continue
-        n_set += 1
-        gf = dict((canon(do, c, keep=('side',)), t) for c, t in guard_facts(do, n))
-        arg = canon(do, a, keep=('side',)).replace(' ', '')
-        pawn = any('PAWN' in k and 'from(move)' in k and v for k, v in gf.items())
-        r_from = [k for k, v in gf.items() if k.replace(' ', '').startswith('(rank(from(move))==') and v]
-        r_to = [k for k, v in gf.items() if k.replace(' ', '').startswith('(rank(to(move))==') and v]
-        okr = bool(r_from) and bool(r_to) and 'RANK_2:RANK_7' in r_from[0].replace(' ', '') and 'RANK_4:RANK_5' in r_to[0].replace(' ', '') \
-            and '(side==WHITE)' in r_from[0] and '(side==WHITE)' in r_to[0]
-        oka = re.match(r'^\(to\(move\)\+\(\(side==WHITE\)\?-\(?8\)?:8\)\)$', arg) is not None
-        ctx.ob('C02.R4.ep-set', 'do_move', pawn and okr and oka,
-               'an e.p. square is set only for a pawn going from its rank 2 to its rank 4 (7->5 for Black), to the square behind it '
-               '(guards %s, argument %s)' % (sorted(k for k, v in gf.items() if v)[:4], arg), site=do.loc(n))
+    # decision table: which e.p. square do_move leaves, per colour x {castling, piece kind, rank left, rank reached, e.p. capture}
+    from rules.cases import case_events
+    RK = p.enum('engine::Rank')
+    n_rows = 0
+    bad_row = None
+    n_set = len([n for n in seps if const_of(strip_casts(kids(n)[1])) != sq['NO_SQUARE']])
+    for sd in (0, 1):
+        own2, own4 = (RK['RANK_2'], RK['RANK_4']) if sd == 0 else (RK['RANK_7'], RK['RANK_5'])
+        opp2, opp4 = (RK['RANK_7'], RK['RANK_5']) if sd == 0 else (RK['RANK_2'], RK['RANK_4'])
+        behind = '(to(move)-8)' if sd == 0 else '(to(move)+8)'
+        for C in (cas['NO_CASTLING'], cas['KING_CASTLING']):
+            for mv in ('PAWN', 'KNIGHT', 'ROOK'):
+                for rf in (own2, opp2, RK['RANK_3'] if sd == 0 else RK['RANK_6']):
+                    for rt in (own4, opp4, RK['RANK_3'] if sd == 0 else RK['RANK_6']):
+                        for E in (False, True):
+                            if E and (mv != 'PAWN' and False):
+                                continue
+                            if C != cas['NO_CASTLING'] and (mv != 'KNIGHT' or E):
+                                continue
+                            n_rows += 1
+                            val = {'castling(move)': C, MOVER: kinds[mv], VICTIM: kinds['NO_PIECE_KIND'], '_board[to(move)]': 0,
+                                   'make_piece_kind(_board[from(move)])': kinds[mv], 'get_piece_kind(_board[to(move)])': kinds['NO_PIECE_KIND'],
+                                   'rank(from(move))': rf, 'rank(to(move))': rt, 'promotion(move)': kinds['NO_PIECE_KIND'],
+                                   ('eq',) + tuple(sorted(['_enpassant_square', 'to(move)'])): E}
+                            for lname, cell in pre_locals.items():
+                                k_ = kinds[mv] if cell == '_board[from(move)]' else kinds['NO_PIECE_KIND']
+                                val['get_piece_kind(%s)' % lname] = val['make_piece_kind(%s)' % lname] = k_
+                                val[lname] = (k_ + 6 * sd) if k_ else 0
+                            ev = case_events(do, val, {'side': sd}, lambda nm_: nm_ == POS + '::set_enpassant_square',
+                                             'e.p. square: side=%d castling=%d mover=%s' % (sd, C, mv))
+                            want = behind if (C == cas['NO_CASTLING'] and mv == 'PAWN' and rf == own2 and rt == own4) else str(sq['NO_SQUARE'])
+                            got = [e[1].replace(' ', '') for e in ev]
+                            if got != [want] and bad_row is None:
+                                bad_row = ('%s, %s %s from rank index %d to rank index %d%s: e.p. square set to %s, should be %s'
+                                           % ('WHITE' if sd == 0 else 'BLACK', 'castling,' if C != cas['NO_CASTLING'] else '', mv, rf, rt,
+                                              ' (capturing e.p.)' if E else '', got, want))
+    ctx.ob('C02.R4.ep-set', 'do_move', bad_row is None,
+           'over %d combinations: the e.p. square after the move is the square behind a pawn that went from its rank 2 to its '
+           'rank 4 (7 to 5 for Black), and none otherwise%s' % (n_rows, '' if bad_row is None else ' — ' + bad_row), site=do.loc())
     ctx.floor('C02.R4.ep-set', n_set, 1, 'e.p. square settings')
     pushes = [n for n, cfid, nm in do.calls() if short(nm) == 'push_back' and '_history' in canon(do, n, inline=False)]
     hist_w = [n for f, n, k in p.field_accesses(POS, '_history') if f is do and k in ('write', 'rmw')]
